@@ -13,7 +13,7 @@
     No bound on the number of orders, addresses or record names; every interleaving and every
     combination of faults is a history. *)
 From Coq Require Import ZArith.
-From CM Require Import Lib.Str Gen.Consts Safe.Model Challenge.Assoc Challenge.Model Solvers.Model Solvers.Proofs Solvers.E2E Solvers.E2EProofs Solvers.Tie.
+From CM Require Import Lib.Str Gen.Consts Safe.Model Challenge.Assoc Challenge.Model Solvers.Model Solvers.Proofs Solvers.E2E Solvers.E2EProofs Solvers.Config Solvers.ConfigProofs Solvers.Tie.
 Open Scope Z_scope.
 
 (** the use count of an address is the number of pending challenges on it; the entry (and with
@@ -154,6 +154,36 @@ Theorem C16_validation_spec_holds : forall sf honour feq, (forall x, feq x x = t
 Proof. exact validation_spec_holds. Qed.
 Print Assumptions C16_validation_spec_holds.
 
+
+(** "solver set per issuer configuration" (newACMEClient), for every configuration: exactly one
+    solver per enabled challenge type (DNS-01 exclusively when a DNS solver is configured, else
+    HTTP-01 and TLS-ALPN-01 unless disabled) ... *)
+Theorem C16_solver_per_enabled_type : forall lower is_space c t,
+  length (filter (fun d => ctype_eqb (sd_type d) t) (solver_set lower is_space c)) = if enabled c t then 1%nat else 0%nat.
+Proof. exact solver_per_enabled_type. Qed.
+Print Assumptions C16_solver_per_enabled_type.
+
+(** ... the listener solvers are distributed under the issuer's own key prefix (where every
+    instance's getChallengeInfo looks) and listen on ListenHost and the configured port *)
+Theorem C16_listener_solvers_distributed : forall lower is_space c d,
+  In d (solver_set lower is_space c) -> sd_type d <> TDns ->
+  sd_dist d = true /\ sd_prefix d = ca_prefix lower is_space (i_ik c) /\
+  sd_addr d = join_host_port (i_host c) (itoa (match sd_type d with THttp => http_port c | _ => alpn_port c end)).
+Proof. exact listener_solvers_distributed. Qed.
+Print Assumptions C16_listener_solvers_distributed.
+
+(** the port: the alternate port if set, else a changed package port, else the standard port *)
+Theorem C16_challenge_port : forall base glob alt,
+  (0 < alt -> pick_port base glob alt = alt) /\
+  (alt <= 0 -> 0 < glob -> glob <> base -> pick_port base glob alt = glob) /\
+  (alt <= 0 -> (glob <= 0 \/ glob = base) -> pick_port base glob alt = base).
+Proof. exact pick_port_spec. Qed.
+Print Assumptions C16_challenge_port.
+
+Theorem C16_cfg_spec_holds : forall lower is_space c, cfg_spec lower is_space c (solver_set lower is_space c) = true.
+Proof. exact cfg_spec_holds. Qed.
+Print Assumptions C16_cfg_spec_holds.
+
 (** * Non-vacuity and worked instances *)
 Local Open Scope N_scope.
 Definition ex_sf := safe (tbl_lower []) (tbl_space []).
@@ -214,3 +244,11 @@ Example C16_validation_hypotheses_satisfiable :
    validates ex_sf feq false (srun ex_sf true (h ++ [SClean o2 ok])) o1 &&
    negb (validates ex_sf feq false (srun ex_sf true (h ++ [SClean o2 ok])) o2)) = true.
 Proof. vm_compute. reflexivity. Qed.
+
+(** a configuration: ListenHost ::1, AltHTTPPort 5002, package HTTPS port 8443 *)
+Example C16_config_instance :
+  let c := ICfg false false false [58;58;49] 5002 0 80 8443 ex_ik in
+  map (fun d => (sd_type d, sd_addr d)) (solver_set (tbl_lower []) (tbl_space []) c) =
+    [(THttp, [91;58;58;49;93;58;53;48;48;50]); (TTlsAlpn, [91;58;58;49;93;58;56;52;52;51])] /\
+  enabled c TDns = false /\ enabled c THttp = true.
+Proof. vm_compute. repeat split; reflexivity. Qed.
